@@ -82,6 +82,22 @@ Theorem C13_filesink_success_iff : forall k fmt t F, k <> PNull ->
 Proof. exact filesink_success_iff. Qed.
 Print Assumptions C13_filesink_success_iff.
 
+(* C13_filesink_success_received_partial: when FileSink reports success and no Write failed after taking part of the value, the
+   destination received exactly the stored bytes.  The full statement (success => exactly the bytes, once, with no side condition)
+   is FALSE of the model's retry path, see C13_filesink_retry_exactly_refuted: a first Write that fails after taking a prefix,
+   then a successful reopen and retry, leaves prefix ++ value at the destination.  Reaching that path on the implementation needs
+   a write(2) on a regular file that fails part-way and then succeeds, which the harness cannot inject: model-level finding only. *)
+Theorem C13_filesink_success_received_partial : forall k fmt t F cs, filesink_process k fmt t F = (SOk, cs) -> k <> PNull ->
+  (forall val, lookup (eff_format fmt) t = Some val -> fst (write_to (fs_w1 F) val) = SErr -> fst (fs_w1 F val) = 0%N) ->
+  exists val, lookup (eff_format fmt) t = Some val /\ received cs = val.
+Proof. exact filesink_success_received. Qed.
+Print Assumptions C13_filesink_success_received_partial.
+
+Theorem C13_filesink_retry_exactly_refuted : exists t F cs,
+  filesink_process PFile 0 t F = (SOk, cs) /\ lookup json_fmt t = Some [1; 2; 3; 4]%N /\ received cs = [1; 2; 1; 2; 3; 4]%N.
+Proof. exact filesink_retry_exactly_refuted. Qed.
+Print Assumptions C13_filesink_retry_exactly_refuted.
+
 Theorem C13_filesink_only_the_value : forall k fmt t F c,
   In c (snd (filesink_process k fmt t F)) -> lookup (eff_format fmt) t = Some (fst c).
 Proof. exact filesink_only_the_value. Qed.
